@@ -164,7 +164,84 @@ func (h *c03Harness) generate(steps int, emit func(op string)) {
 			return fmt.Sprintf("a:%d:%d:%d:%d", []int{0, 7}[rng.Intn(2)], []int{0, 6, 7}[rng.Intn(3)], ad, fee), r
 		}
 	}
+	// relayer registry: default entries (see defaultRegistry) and deviations from them
+	defSigner := func(p int) string {
+		var a []string
+		for q := 0; q < c03NChains; q++ {
+			if q != p {
+				a = append(a, fmt.Sprintf("%d:%d", q, p*16+q))
+			}
+		}
+		return fmt.Sprintf("register %d %d ? %s", p, c03AccUser, strings.Join(a, " "))
+	}
+	defRecipient := func(p int) string {
+		var a []string
+		for q := 0; q < c03NChains; q++ {
+			if q != p {
+				a = append(a, fmt.Sprintf("%d:%d", q, q*16+p))
+			}
+		}
+		return fmt.Sprintf("register %d %d ? %s", p, c03AccRelayer, strings.Join(a, " "))
+	}
+	customRecipient := func(p int) string { // account 6 is paid for every custom name (70..72) from every other chain
+		var a []string
+		for q := 0; q < c03NChains; q++ {
+			if q != p {
+				for t := 70; t <= 72; t++ {
+					a = append(a, fmt.Sprintf("%d:%d", q, t))
+				}
+			}
+		}
+		return fmt.Sprintf("register %d %d ? %s", p, c03AccU6, strings.Join(a, " "))
+	}
+	by := func() string { // who signs a relay message
+		switch rng.Intn(8) {
+		case 0:
+			return " by8"
+		case 1:
+			return " by9"
+		}
+		return ""
+	}
+	registryOp := func() {
+		p := rng.Intn(c03NChains)
+		q := other(p)
+		switch rng.Intn(14) {
+		case 0, 1: // the fee recipient is re-registered for ONE counterparty only: acknowledgements from the other one name a relayer this chain can not resolve
+			emit(fmt.Sprintf("register %d %d ? %d:%d", p, c03AccRelayer, q, q*16+p))
+		case 2, 3:
+			emit(defRecipient(p))
+		case 4, 12, 13: // a further relayer (signer 8 or 9) with a name of its own, with or without somebody to be paid on the other side
+			a := []int{c03AccU8, c03AccU9}[rng.Intn(2)]
+			t := 70 + rng.Intn(3)
+			emit(fmt.Sprintf("register %d %d ? %d:%d", p, a, q, t))
+			if rng.Intn(3) > 0 {
+				emit(fmt.Sprintf("register %d %d ? %d:%d", q, []int{c03AccU6, c03AccU7}[rng.Intn(2)], p, t))
+			}
+		case 5: // the usual signer goes by another name for one counterparty
+			t := 70 + rng.Intn(3)
+			emit(fmt.Sprintf("register %d %d ? %d:%d %d:%d", p, c03AccUser, q, t, 3-p-q, p*16+(3-p-q)))
+			if rng.Intn(2) == 0 {
+				emit(customRecipient(q))
+			}
+		case 6, 7:
+			emit(defSigner(p))
+		case 8: // two entries list the same name: the store order decides who is paid
+			emit(fmt.Sprintf("register %d %d ? %d:%d", p, c03AccU6, q, q*16+p))
+			emit(fmt.Sprintf("register %d %d ? %d:%d", p, c03AccU7, q, q*16+p))
+		case 9: // de-registration (an entry for no chain at all)
+			emit(fmt.Sprintf("register %d %d ?", p, []int{c03AccUser, c03AccRelayer, c03AccU8, c03AccU6}[rng.Intn(4)]))
+		case 10:
+			emit(customRecipient(p))
+		case 11: // registered for the wrong chain
+			emit(fmt.Sprintf("register %d %d ? %d:%d", p, c03AccRelayer, p, q*16+p))
+		}
+	}
 	for s := 0; s < steps; s++ {
+		if rng.Intn(100) < 7 {
+			registryOp()
+			continue
+		}
 		var unrecv, unacked, done []*c03Obs
 		for _, k := range h.keys {
 			o := h.obs[k]
@@ -338,7 +415,7 @@ func (h *c03Harness) generate(steps int, emit func(op string)) {
 			case y == 0 && len(unacked)+len(done) > 0: // duplicate delivery
 				l := append(append([]*c03Obs{}, unacked...), done...)
 				o := l[rng.Intn(len(l))]
-				emit(fmt.Sprintf("recv %d %d %d", o.src, o.dst, o.seq))
+				emit(fmt.Sprintf("recv %d %d %d%s", o.src, o.dst, o.seq, by()))
 			case y == 1: // a packet that was never sent
 				c := rng.Intn(c03NChains)
 				d := other(c)
@@ -348,7 +425,7 @@ func (h *c03Harness) generate(steps int, emit func(op string)) {
 				emit(fmt.Sprintf("recv %d %d %d forge", o.src, o.dst, o.seq))
 			case len(unrecv) > 0:
 				o := unrecv[rng.Intn(len(unrecv))]
-				emit(fmt.Sprintf("recv %d %d %d", o.src, o.dst, o.seq))
+				emit(fmt.Sprintf("recv %d %d %d%s", o.src, o.dst, o.seq, by()))
 			default:
 				s--
 			}
@@ -365,11 +442,18 @@ func (h *c03Harness) generate(steps int, emit func(op string)) {
 				emit(fmt.Sprintf("ack %d %d %d forge", o.src, o.dst, o.seq))
 			default:
 				o := unacked[rng.Intn(len(unacked))]
-				emit(fmt.Sprintf("ack %d %d %d", o.src, o.dst, o.seq))
+				emit(fmt.Sprintf("ack %d %d %d%s", o.src, o.dst, o.seq, by()))
 			}
 		}
 	}
-	// drain: relay everything that is still pending (so that histories end in final outcomes as well)
+	// drain: restore a registry in which every name that may have been written into an acknowledgement resolves, then
+	// relay everything that is still pending (so that histories end in final outcomes as well)
+	for p := 0; p < c03NChains; p++ {
+		emit(defSigner(p))
+		emit(defRecipient(p))
+		emit(customRecipient(p))
+		emit(fmt.Sprintf("register %d %d ?", p, c03AccU7))
+	}
 	for round := 0; round < 4; round++ {
 		progressed := false
 		for _, k := range append([]string{}, h.keys...) {
